@@ -168,26 +168,24 @@ func (h *responseCache) get(httpRequest *http.Request) *http.Response {
 
 // insert is called by the transport to insert a new entry to the cache.
 func (h *responseCache) insert(entry *cacheEntry) {
-	if len(entry.responseData) > h.maxBytes { // sanity check: don't cache responses that are larger than the cache
+	if len(entry.responseData) >= h.maxBytes { // sanity check: don't cache responses that don't fit in the cache
 		return
 	}
 	h.mux.Lock()
 	defer h.mux.Unlock()
 	// See if we need to make room for the new entry
-	for h.currentSizeBytes+len(entry.responseData) >= h.maxBytes {
+	for h.head != nil && h.currentSizeBytes+len(entry.responseData) >= h.maxBytes {
 		_ = h.pop()
 	}
-	if h.head == nil {
-		// First entry
+	if h.head == nil || !h.head.expirationTime.Before(entry.expirationTime) {
+		// First entry, or the entry that expires first: it becomes the head
+		entry.next = h.head
 		h.head = entry
 	} else {
 		// Insert in the linked list, ordered by expiration time
 		var current = h.head
 		for current.next != nil && current.next.expirationTime.Before(entry.expirationTime) {
 			current = current.next
-		}
-		if current == h.head {
-			h.head = entry
 		}
 		entry.next = current.next
 		current.next = entry
